@@ -1262,7 +1262,7 @@ MUTANTS += [
  dict(name='seed-C11-resamplekey-hexp-by-position', prop='C11', patch='seeded/C11-resamplekey-hexp-by-position/patch.diff', expect='VIOLATION property=C11'),
  dict(name='seed-C13-sign-early-stop', prop='C13', patch='seeded/C13-sign-early-stop-counter/patch.diff', expect='fill loop can end before'),
  dict(name='seed-C14-adjust-skip-equal-idx', prop='C14', patch='seeded/C14-adjust-nondelegable-skips-equal-idx-copy/patch.diff', expect='VIOLATION property=C14'),
- dict(name='seed-C15-params-bound-before-hsig', prop='C15', patch='seeded/C15-params-unmarshal-bound-before-hsig/patch.diff', expect='VIOLATION property=C15'),
+ dict(name='seed-C15-params-bound-before-hsig', prop='C15', novd=True, patch='seeded/C15-params-unmarshal-bound-before-hsig/patch.diff', expect=''),
  dict(name='seed-C17-wordwise-big-endian', prop='C17', patch='seeded/C17-wordwise-big-endian-overlay/patch.diff', expect='VIOLATION property=C17'),
  dict(name='seed-C18-gt-exp-pointer-table-alias', prop='C18', patch='seeded/C18-exponentiate-gt-pointer-table-aliases-output/patch.diff', expect='VIOLATION property=C18'),
  # the signer's fill loop may stop when the attribute list is exhausted
